@@ -419,6 +419,33 @@ def tasks(tier, seed):
         fams = [fams3[(i + 1) % len(fams3)]] if q else fams3
         for sup in supports_of(fams, sizes=(1, 2, 3, len(fams[0])) if q else None):
             out.append(_t("IRV", 1, {"quota": "droop", "tiebreak": tb}, sup, C.K3, nmax=nmax, weight=len(sup), xval_stride=stride))
+    # the same rules over candidate names that contain one another (W1 / W10 / W)
+    nfam = C.rename_family(fams3[0], C.NESTED3)
+    ncands = C.rename_cands(C.K3, C.NESTED3)
+    for o in (stv_opts[0], stv_opts[1]):
+        for sup in supports_of([nfam], sizes=(2, 3) if q else None):
+            for m in (1, 2):
+                out.append(_t("STV", m, o, sup, ncands, nmax=nmax, weight=len(sup), xval_stride=stride))
+    for sup in supports_of([nfam], sizes=(2, 3)):
+        out.append(_t("IRV", 1, {"quota": "droop", "tiebreak": "random"}, sup, ncands, nmax=nmax, weight=len(sup), xval_stride=stride))
+        out.append(_t("Plurality", 1, {"tiebreak": "random"}, sup, ncands, weight=len(sup), xval_stride=stride))
+        out.append(_t("TopTwo", 1, {"tiebreak": None}, sup, ncands, weight=len(sup), xval_stride=stride))
+        out.append(_t("Alaska", 1, {"m_1": 2, "quota": "droop", "simultaneous": True, "transfer": "fractional", "tiebreak": None}, sup, ncands, nmax=nmax, weight=2 * len(sup), xval_stride=stride))
+        out.append(_t("RandomDictator", 2, {}, sup, ncands, weight=len(sup), xval_stride=stride))
+    if not q:
+        # four candidates (m up to 4): over-election / default-election corners need them
+        for o in (stv_opts[0], stv_opts[1], stv_opts[4], stv_opts[5]):
+            W = 2 if o.get("transfer") == "random" else None
+            for fam in F.base4(False):
+                for sup in supports_of([fam], sizes=(2, 3, 4)):
+                    for m in (2, 3, 4):
+                        out.append(_t("STV", m, o, sup, C.K4, nmax=8, W=W, weight=4 * len(sup), xval_stride=stride, split=3 if len(sup) >= 3 else 0))
+        for fam in F.base4(False)[:2]:
+            for sup in supports_of([fam], sizes=(3, 4)):
+                for m in (1, 2, 3):
+                    out.append(_t("Plurality", m, {"tiebreak": "borda"}, sup, C.K4, weight=len(sup), xval_stride=stride))
+                    out.append(_t("CondoBorda", m, {}, sup, C.K4, weight=len(sup), xval_stride=stride))
+                out.append(_t("Alaska", 2, {"m_1": 3, "quota": "droop", "simultaneous": True, "transfer": "fractional", "tiebreak": None}, sup, C.K4, nmax=8, weight=4 * len(sup), xval_stride=stride, split=3))
     # single-round positional rules (tied positions allowed)
     tied = F.tied3(q)
     for fam in tied:
